@@ -82,7 +82,8 @@ class FuncSpec:
         self.zero_of = zero_of or {}
 
 
-TY = {K: "K", D: "D", I: "Int", N: "Nat", B: "Bool"}
+M = "M"   # 3x3 matrix of K (model type Arim.Geo.M3)
+TY = {K: "K", D: "D", I: "Int", N: "Nat", B: "Bool", M: "Arim.Geo.M3 K"}
 
 
 def lean_type(t):
@@ -227,6 +228,10 @@ class Tr:
         a, ta = self.expr(e.left)
         b, tb = self.expr(e.right)
         op = type(e.op)
+        if op is ast.MatMult:
+            if ta == M and tb == M:
+                return (f"(Arim.Geo.mmul {a} {b})", M)
+            self.err(e, "matrix product of non-matrices")
         # sample data
         if ta == D or tb == D:
             if op in (ast.Add, ast.Sub) and (ta == D or isinstance(ta, Lit)) and (tb == D or isinstance(tb, Lit)):
@@ -299,6 +304,13 @@ class Tr:
 
     def call(self, e):
         fsrc = ast.unparse(e.func)
+        if fsrc in ("np.array", "numpy.array") and len(e.args) == 1 and isinstance(e.args[0], ast.Tuple) \
+                and len(e.args[0].elts) == 3 and all(isinstance(r, ast.Tuple) and len(r.elts) == 3 for r in e.args[0].elts) \
+                and all(k.arg == "dtype" and ast.unparse(k.value) in ("float", "np.float64") for k in e.keywords):
+            rows = []
+            for r in e.args[0].elts:
+                rows.append("⟨" + ", ".join(self.coerce(*self.expr(x), K, x) for x in r.elts) + "⟩")
+            return ("(⟨" + ", ".join(rows) + "⟩ : Arim.Geo.M3 K)", M)
         if e.keywords:
             self.err(e, "keyword arguments")
         if fsrc in self.s.bind:
